@@ -13,6 +13,9 @@ func main() {
 	e := vlib.Init()
 	r := vlib.NewRand(uint64(e.Seed))
 	switch e.Prop {
+	case "C03":
+		// statement C03 for completed one-hop paths only: reversed, they are accepted by both routers
+		(&c12{e: e, r: r, c03: true}).run()
 	case "C07":
 		// statement C07 for one-hop-path packets only (SCION/EPIC paths are engine router's)
 		(&c12{e: e, r: r, c07: true}).run()
